@@ -90,6 +90,9 @@ func c03Lookup(in sx.V, n int) (*c03Type, sx.V) {
 	if ct == nil {
 		ct = c03AtLookup(string(in.List[0].Bytes))
 	}
+	if ct == nil {
+		ct = c03FullLookup(string(in.List[0].Bytes)) // c03_r8.go
+	}
 	if ct == nil || ct.class != tlbdesc.ClassDescribed {
 		return nil, sx.L(sx.A("harness-error"), sx.A("unknown-type"))
 	}
@@ -453,6 +456,7 @@ func c03RandValue(ct *c03Type, r *prng.R) sx.V {
 
 func genC03(c *Ctx) {
 	c03Load()
+	defer c03R8(c)() // c03_r8.go: the encoder at a full cell (model-compared family now, implementation-only sweep in the background)
 	// 1. primitives: every generated integer / bits / VarUInteger type at its boundaries
 	for _, name := range c03Names {
 		ct := c03Types[name]
